@@ -22,6 +22,7 @@ type TimingCfg struct {
 	Script      []bool // per attempt: succeeds?
 	Upper       bool   // upper-bound clauses apply (long waits)
 	CancelAfter int    // cancel 20ms after the exit of this attempt (0: never)
+	Fb          bool   // the node has a (succeeding) fallback
 	Dur         int    // every failing attempt takes this long (ms): the wait counts from its END
 }
 
@@ -30,11 +31,11 @@ func (c TimingCfg) toJSON() map[string]any {
 	for _, b := range c.Script {
 		sc = append(sc, b)
 	}
-	return map[string]any{"w": c.W, "N": c.N, "kind": c.Kind, "n": c.Items, "c": c.C, "script": sc, "upper": c.Upper, "cancelafter": c.CancelAfter, "dur": c.Dur}
+	return map[string]any{"w": c.W, "N": c.N, "kind": c.Kind, "n": c.Items, "c": c.C, "script": sc, "upper": c.Upper, "cancelafter": c.CancelAfter, "dur": c.Dur, "fb": c.Fb}
 }
 
 func parseTimingCfg(m map[string]any) TimingCfg {
-	c := TimingCfg{W: asInt(m["w"]), N: asInt(m["N"]), Kind: asStr(m["kind"]), Items: asInt(m["n"]), C: asInt(m["c"]), Upper: asBool(m["upper"]), CancelAfter: asInt(m["cancelafter"]), Dur: asInt(m["dur"])}
+	c := TimingCfg{W: asInt(m["w"]), N: asInt(m["N"]), Kind: asStr(m["kind"]), Items: asInt(m["n"]), C: asInt(m["c"]), Upper: asBool(m["upper"]), CancelAfter: asInt(m["cancelafter"]), Dur: asInt(m["dur"]), Fb: asBool(m["fb"])}
 	for _, b := range asList(m["script"]) {
 		c.Script = append(c.Script, asBool(b))
 	}
@@ -51,6 +52,13 @@ func (n *timedStruct) Exec(ctx context.Context, p any) (any, error)             
 func (n *timedStruct) Post(ctx context.Context, s *flyt.SharedStore, p, x any) (flyt.Action, error) {
 	n.t.mark("post", 0)
 	return flyt.DefaultAction, nil
+}
+
+type timedStructFb struct{ timedStruct }
+
+func (n *timedStructFb) ExecFallback(p any, err error) (any, error) {
+	n.t.mark("fb", 0)
+	return "fallback", nil
 }
 
 type timingRun struct {
@@ -106,9 +114,18 @@ func runTimingScenario(cfg TimingCfg) []Event {
 	var node flyt.Node
 	switch cfg.Kind {
 	case "struct":
-		node = &timedStruct{BaseNode: flyt.NewBaseNode(flyt.WithMaxRetries(cfg.N), flyt.WithWait(wait)), t: t}
+		ts := timedStruct{BaseNode: flyt.NewBaseNode(flyt.WithMaxRetries(cfg.N), flyt.WithWait(wait)), t: t}
+		if cfg.Fb {
+			node = &timedStructFb{ts}
+		} else {
+			node = &ts
+		}
 	case "func":
-		node = flyt.NewNode().WithMaxRetries(cfg.N).WithWait(wait).
+		fnode := flyt.NewNode()
+		if cfg.Fb {
+			fnode = fnode.WithExecFallbackFunc(func(p any, err error) (any, error) { t.mark("fb", 0); return "fallback", nil })
+		}
+		node = fnode.WithMaxRetries(cfg.N).WithWait(wait).
 			WithPrepFuncAny(func(ctx context.Context, s *flyt.SharedStore) (any, error) { return t.prep() }).
 			WithExecFuncAny(func(ctx context.Context, p any) (any, error) { return t.exec(0) }).
 			WithPostFuncAny(func(ctx context.Context, s *flyt.SharedStore, p, x any) (flyt.Action, error) {
@@ -220,6 +237,14 @@ func init() {
 					cfgs = append(cfgs, c)
 				}
 			}
+		}
+		// the same with a fallback that would succeed: a cancelled wait must not be "recovered" by it
+		for _, k := range []string{"struct", "func"} {
+			for _, spec := range [][2]int{{3600000, 1}, {2000, 2}} {
+				cfgs = append(cfgs, TimingCfg{W: spec[0], N: 3, Kind: k, Script: make([]bool, 3), CancelAfter: spec[1], Fb: true})
+			}
+			// and without cancellation the fallback runs exactly after the N-th failure
+			cfgs = append(cfgs, TimingCfg{W: 2, N: 3, Kind: k, Script: make([]bool, 3), Fb: true})
 		}
 		// run in parallel: the scenarios are independent and mostly sleep
 		res := make([][]Event, len(cfgs))
